@@ -19,7 +19,7 @@ ASSUMPTIONS = ['a frame the library does not accept when complete is skipped '
 def shards(tier, seed):
     n = 16
     out = [{'name': 's%d' % i, 'i': i,
-             'frames': 90 if tier == 'quick' else 1900,
+             'frames': 90 if tier == 'quick' else 6000,
              'big': 1 if tier == 'quick' else 6} for i in range(n)]
     return common.with_configs(out, [common.LOG_DEBUG, common.W_ERROR,
                                      common.PY_O], take=2)
